@@ -143,6 +143,11 @@ def gen_frame(rng, t, ncols: int, kind: str) -> dict:
                     vals = [rng.choice([0.0, 1.0, -0.0, 2.0, 1e-12, 1e15, float("inf"), float("nan"), 0.1 + 0.2])
                             for _ in range(nrows)]
             cols.append([name, typ, vals])
+    if kind == "grouped" and ncols >= 3 and rng.random() < 0.3:
+        # same names, another physical order: the key column sits at another index
+        order = list(range(ncols))
+        rng.shuffle(order)
+        cols = [cols[i] for i in order]
     return {"cols": cols}
 
 
@@ -301,6 +306,16 @@ def gen_palette_of_specs(rng, t) -> dict:
             if n >= 3:
                 kinds.append("broken2")
         pal["frames"][n] = [(k, gen_frame(rng, t, n, k)) for k in kinds]
+        if t.get("theme") == "grouping" and n >= 3:
+            # permuted twins: same names, same shape, same values - another physical column order
+            twins = []
+            for k, f in pal["frames"][n]:
+                if k == "grouped" and rng.random() < 0.6:
+                    order = list(range(n))
+                    rng.shuffle(order)
+                    if order != list(range(n)):
+                        twins.append((k, {"cols": [f["cols"][i] for i in order]}))
+            pal["frames"][n] += twins
     return pal
 
 
@@ -315,10 +330,10 @@ def _pick_body(rng, t, pal, n, frame_kind, allow_grouping=True, nrows=None):
         # one grouping role per key column, roles permuted per document
         roles = rng.choice([("page_by",), ("subline_by",), ("group_by",), ("page_by", "subline_by"),
                             ("subline_by", "page_by"), ("page_by", "group_by"), ("group_by", "page_by"),
-                            ("subline_by", "group_by")])
+                            ("subline_by", "group_by"), ("page_by", "page_by"), ("group_by", "group_by")])
         cols = ["c0", "c1"] if n >= 3 else ["c0"]
         for role, colname in zip(roles, cols):
-            spec[role] = [colname]
+            spec.setdefault(role, []).append(colname)  # the same role twice = nested keys [outer, inner]
         if "page_by" in spec and rng.random() < 0.4:
             spec["new_page"] = True
             if rng.random() < 0.5:
@@ -366,9 +381,11 @@ def gen_recipe(rng, t, pal) -> dict:
             "kw": {},
         }
         if rng.random() < 0.6:
-            rec["figure"]["kw"]["fig_width"] = rng.choice([3.0, 5.0]) if rng.random() < 0.5 else [rng.choice([2.0, 4.0]) for _ in range(nfig)]
+            rec["figure"]["kw"]["fig_width"] = (rng.choice([3.0, 5.0, 7.0, 9.5]) if rng.random() < 0.5
+                                                else [rng.choice([2.0, 4.0, 7.0, 9.5]) for _ in range(nfig)])
         if rng.random() < 0.4:
-            rec["figure"]["kw"]["fig_height"] = rng.choice([2.0, 3.5, 6.0])
+            rec["figure"]["kw"]["fig_height"] = (rng.choice([2.0, 3.5, 6.0, 9.0]) if rng.random() < 0.6
+                                                 else [rng.choice([2.0, 5.0, 9.0]) for _ in range(nfig)])
         if rng.random() < 0.3:
             rec["figure"]["kw"]["fig_align"] = rng.choice(["left", "center", "right"])
         # figure documents require as_table=False
